@@ -92,6 +92,8 @@ class Case:
                 f.write(scrypt_record(b"boss-pw") .encode() + b"totp: AAAA\n")
             with open(os.path.join(base, "bob.user"), "wb") as f:
                 f.write(scrypt_record(b"bob-pw").encode())
+        if getattr(self, "tmp_is_file", False):          # a decoy regular file where the work area should be
+            open(os.path.join(base, ".tmp"), "wb").write(b"not a directory\n")
         open(os.path.join(root, "store.yaml"), "w").write(CFG % (base, base64.b64encode(HMAC1).decode()))
         open(os.path.join(root, "pw"), "wb").write(PWS[self.pw])
         open(os.path.join(root, "decoy.user"), "wb").write(scrypt_record(b"decoy").encode())
@@ -560,6 +562,7 @@ def fault_runs(ctx, drv, bl, errnos=ERRNOS, workers=16, only_calls=None, as_prop
         b, idx, en, commit = job
         c0 = b["case"]
         c = Case(c0.name, c0.op, c0.user, c0.had, c0.admin, c0.aux, c0.pw, c0.empty_dir)
+        c.tmp_is_file = getattr(c0, "tmp_is_file", False)
         call = b["run"]["parsed"]["region"][idx]
         tag = "fault-%s-%d-%s" % (c.name, idx, en)
         c.materialise(os.path.join(drv.work, tag))
